@@ -151,7 +151,8 @@ PROPS = {
         functions=[DS + "AbstractDissimilarity._compute_alignment_disorders", DS + "AbstractDissimilarity._build_arrays_continuum",
                    DS + "AbstractDissimilarity._build_arrays_alignment", AL + "Alignment.annotators", AL + "Alignment.categories#attached",
                    DS + "AbstractDissimilarity.compute_disorder", AL + "Alignment.compute_disorder", AL + "SoftAlignment.compute_disorder",
-                   AL + "Alignment.avg_num_annotations_per_annotator#attached", AL + "Alignment.disorder#lazy", AL + "UnitaryAlignment.disorder#value",
+                   AL + "Alignment.avg_num_annotations_per_annotator#attached", AL + "Alignment.disorder#lazy", AL + "UnitaryAlignment.disorder#value", AL + "UnitaryAlignment.nb_units#value",
+                   AL + "Alignment.num_annotators", AL + "Alignment.avg_num_annotations_per_annotator#detached", AL + "Alignment.disorder#lazy-detached",
                    CT + "Continuum.avg_num_annotations_per_annotator", CT + "Continuum.num_units", CT + "Continuum.num_annotators"]
                   + ALIGN_CTORS + [AL + "SoftAlignment.__init__", CT + "Continuum.get_best_alignment", CT + "Continuum.get_best_soft_alignment"],
         oracles=[AL + "Alignment.compute_disorder"],
@@ -160,12 +161,13 @@ PROPS = {
                            "level), AbstractDissimilarity.compute_disorder (kernel o encoding), Alignment.compute_disorder for an alignment "
                            "attached to its continuum (D2: every unitary alignment gets its recomputed disorder, the alignment their sum over "
                            "x-bar), the lazy Alignment.disorder property of an attached alignment whose unitary alignments carry their disorders (D3: their "
-                           "sum over x-bar, memoised). Not under contract: detached alignments, "
+                           "sum over x-bar, memoised), and of a detached one (x-bar counted on the unitary alignments: real units over the number of "
+                           "annotators). Not under contract: recomputation (compute_disorder) of detached alignments, "
                            "UnitaryAlignment.compute_disorder (known finding): best, soft and hand-built alignments (attached or not, annotators listed in shuffled order) of random "
                            "grid continua with 2..5 annotators, every built-in dissimilarity family: cached, per-unitary and recomputed "
                            "disorders against the definition written from the statement")],
         design_ref="DESIGN.md section 4 C03, appendix A.3",
-        not_decided=["detached alignments (no continuum) are bounded only; that the recomputed disorder of a library-returned "
+        not_decided=["recomputation of detached alignments (no continuum) is bounded only; that the recomputed disorder of a library-returned "
                      "alignment equals the carried one (two different proved computations of the same pair fold) is bounded"],
         trusted=S_COMMON + T_SOLVER,
     ),
